@@ -5,6 +5,7 @@ import HapModel.Drv.C05
 import HapModel.Drv.C06
 import HapModel.Drv.C07
 import HapModel.Drv.C09
+import HapModel.Drv.C10
 import HapModel.Drv.C11
 import HapModel.Drv.C12
 import HapModel.Drv.C13
@@ -51,6 +52,7 @@ def dispatch1 (op : String) (j : Json) : R Json :=
   | "noiseVar" => hNoiseVar j
   | "ldPlan" => hLdPlan j
   | "splitLines" => hSplitLines j
+  | "seedGuard" => hSeedGuard j
   | "cliParse" => hCliParse j
   | _ => throw s!"unknown op {op}"
 
